@@ -24,6 +24,9 @@ REPLAYS = VERIF / "replays"
 REPO = Path(os.environ.get("JV_REPO", "/repo"))
 # evidence describes runs against /repo itself; a run against another checkout (a seeded change under
 # evaluation, JV_REPO=<worktree>) must not overwrite it
+if REPO.resolve() != Path("/repo"):
+    # ... and has a scratch directory of its own, so that it can run next to a check of /repo
+    WORK = WORK / "other-checkout"
 EVID = VERIF / "evidence" if REPO.resolve() == Path("/repo") else WORK / "evidence-other-checkout"
 JAR = "/opt/veriftools/tla/tla2tools.jar:/opt/veriftools/tla/CommunityModules-deps.jar"
 
